@@ -1725,9 +1725,11 @@ class JoinOn(Join):
         )
 
     def validate(self, _from: Sequence[Table], _joins: Sequence[Table]) -> None:
-        criterion_tables = set([f.table for f in self.criterion.fields_()])
+        # find_ rather than fields_(): fields_() is a set keyed by the rendered text, which drops same-named
+        # fields of different tables; table-less fields are not bound to any table and are always acceptable
+        criterion_tables = set([f.table for f in self.criterion.find_(Field)])
         available_tables = set(_from) | {join.item for join in _joins} | {self.item}
-        missing_tables = criterion_tables - available_tables
+        missing_tables = criterion_tables - available_tables - {None}
         if missing_tables:
             raise JoinException(
                 "Invalid join criterion. One field is required from the joined item and "
